@@ -1,7 +1,6 @@
 //! C03 — information content = -ln(n/N) per kind.
 
 use super::common::*;
-use crate::build::*;
 use crate::ensure;
 use crate::gen;
 use crate::model::*;
@@ -210,12 +209,15 @@ impl Property for C03 {
         }
         replay_typed::<OntCase, _>(case, stats, check)
     }
-    fn extra(&self, tier: Tier, seed: u64, stats: &mut Stats) -> Vec<(Value, Failure)> {
+    fn extra(&self, _tier: Tier, _seed: u64, stats: &mut Stats) -> Vec<(Value, Failure)> {
         let mut out = Vec::new();
         stats.cases += 1;
         if let Err(f) = check_setters(stats) {
             out.push((json!({"setter_grid": true}), f));
         }
+        out
+    }
+    fn isolated_plans(&self, tier: Tier, seed: u64) -> Vec<Value> {
         // record counts up to the documented limit, through the Builder and the binary loader
         let vary = (seed % 997) as u32;
         let mut plans = vec![(65_535u32, 40_000 + vary, 300u32, PathSel::Builder), (33_000 + vary, 65_535, 32_768, PathSel::Bin(3))];
@@ -224,27 +226,6 @@ impl Property for C03 {
             plans.push((50_000 + vary, 257, 65_535, PathSel::BuilderDefaults));
             plans.push((32_768, 32_767, 32_769, PathSel::Bin(2)));
         }
-        let results: Vec<(Stats, Option<(Value, Failure)>)> = std::thread::scope(|sc| {
-            let hs: Vec<_> = plans
-                .iter()
-                .map(|p| {
-                    let p = *p;
-                    sc.spawn(move || {
-                        let mut st = Stats::default();
-                        st.cases += 1;
-                        let r = check_large(p.0, p.1, p.2, p.3, &mut st);
-                        (st, r.err().map(|f| (json!({"large": p}), f)))
-                    })
-                })
-                .collect();
-            hs.into_iter().filter_map(|h| h.join().ok()).collect()
-        });
-        for (st, r) in results {
-            stats.merge(st);
-            if let Some(x) = r {
-                out.push(x);
-            }
-        }
-        out
+        plans.into_iter().map(|p| json!({"large": p})).collect()
     }
 }
